@@ -160,6 +160,9 @@ func (g *Gen) execInstr(in ssa.Instruction, st State, reach string) {
 		}
 	case *ssa.Store:
 		lv := g.resolveAddr(v.Addr, st)
+		if lv.kind == lvBad && g.storeStruct(v, st, reach) {
+			return
+		}
 		if lv.kind == lvBad {
 			g.note("store through unsupported address %s at %s: all heaps havocked", v.Addr.Name(), g.where(v.Pos()))
 			g.havocAllHeaps(st)
@@ -636,8 +639,10 @@ func (g *Gen) execReturn(v *ssa.Return, st State, reach string) {
 	g.newCover("cover", fmt.Sprintf("return@%d", v.Block().Index), "return at "+g.where(v.Pos())+" is reachable", g.where(v.Pos()), reach)
 }
 
-// checkFrame: every state component changed by the body is either declared in modifies
-// or unchanged on the objects that existed at entry.
+// checkFrame: every state component changed by the body is declared in modifies, or is
+// written only through objects allocated by this very call (decided on the SSA: the base of
+// every recorded write is an allocation), or -- failing that -- is proved unchanged on the
+// objects that existed at entry (an SMT obligation).
 func (g *Gen) checkFrame(st State, reach string, pos token.Pos) {
 	if g.ct == nil {
 		return
@@ -649,11 +654,15 @@ func (g *Gen) checkFrame(st State, reach string, pos token.Pos) {
 	a0 := g.stGet(State{}, "alloc", SMath)
 	for _, n := range sortedKeys(st) {
 		cur := st[n]
-		init := "|" + n + "@in|"
+		init := g.stGet(State{}, n, g.stSorts[n])
 		if cur == init || allowed[n] || n == "alloc" {
 			continue
 		}
-		if strings.HasPrefix(n, "C.") {
+		if strings.HasPrefix(n, "C.") || strings.HasPrefix(n, "L.") {
+			continue
+		}
+		if g.writesOnlyFresh(n) {
+			g.frameStructural[n] = true
 			continue
 		}
 		var goal string
@@ -665,4 +674,77 @@ func (g *Gen) checkFrame(st State, reach string, pos token.Pos) {
 		}
 		g.newObligation("frame", n, "frame: "+n+" is not in modifies and is unchanged on pre-existing objects", g.where(pos), app("=>", reach, goal))
 	}
+}
+
+// writesOnlyFresh: every write to heap n recorded in the function goes through a base value
+// that is an allocation performed by this function.
+func (g *Gen) writesOnlyFresh(n string) bool {
+	found := false
+	for _, ws := range g.writeLog {
+		for _, w := range ws {
+			if w.heap == "*" {
+				return false
+			}
+			if w.heap != n {
+				continue
+			}
+			found = true
+			if w.base == nil || !isFreshValue(w.base, 0) {
+				return false
+			}
+		}
+	}
+	return found
+}
+
+func isFreshValue(v ssa.Value, depth int) bool {
+	if depth > 6 {
+		return false
+	}
+	switch x := v.(type) {
+	case *ssa.Alloc, *ssa.MakeSlice, *ssa.MakeMap, *ssa.MakeChan, *ssa.MakeClosure:
+		return true
+	case *ssa.Slice:
+		return isFreshValue(x.X, depth+1)
+	case *ssa.ChangeType:
+		return isFreshValue(x.X, depth+1)
+	case *ssa.Phi:
+		for _, e := range x.Edges {
+			if !isFreshValue(e, depth+1) {
+				return false
+			}
+		}
+		return true
+	}
+	return false
+}
+
+// storeStruct: *p = v for a pointer to struct p: every field heap is updated at p.
+func (g *Gen) storeStruct(v *ssa.Store, st State, reach string) bool {
+	pt, ok := v.Addr.Type().Underlying().(*types.Pointer)
+	if !ok {
+		return false
+	}
+	stT, ok := pt.Elem().Underlying().(*types.Struct)
+	if !ok {
+		return false
+	}
+	base := g.val(v.Addr)
+	val := g.val(v.Val)
+	if val.So.K != KData {
+		return false
+	}
+	if _, isAlloc := v.Addr.(*ssa.Alloc); !isAlloc {
+		g.safety("nil", "nil pointer dereference", v.Pos(), reach, not(app("=", base.S, "0")))
+	}
+	for i := 0; i < stT.NumFields(); i++ {
+		f := stT.Field(i)
+		fso := g.te.sortOf(f.Type())
+		hn := g.fieldHeapName(pt.Elem(), f.Name())
+		hso := &Sort{K: KRaw, Name: "(Array Int " + fso.Name + ")"}
+		h := g.stGet(st, hn, hso)
+		g.recordWrite(hn, v.Addr)
+		g.stSet(st, hn, hso, app("store", h, base.S, app(val.So.Fields[i].Acc, val.S)))
+	}
+	return true
 }
